@@ -75,6 +75,8 @@ def _eval_one(wd, idx, cases, timeout, keep_raw):
         json.dump(cases, f, separators=(",", ":"))
     r = tlc.run(wd, "CoapWireEval.tla", "CoapWireEval.cfg", workers=1, timeout=timeout, env=dict(JVM, C01_CASES=path), heap="3g")
     tlc.need_ok_run(r, "CoapWireEval batch %d" % idx)
+    if os.environ.get("VERIF_DEBUG"):
+        print("  eval batch %d: %d cases, %.1fs" % (idx, len(cases), r.wall), file=sys.stderr, flush=True)
     vals = [(v[1], raw if keep_raw else v) for v, raw in L.tlc_values_iter(r.out)]
     os.unlink(path)
     return vals
